@@ -1171,7 +1171,7 @@ theorem kinv_step {w : World} (h : KInv w) (op : BOp) : KInv (applyOp w op) := b
       · exact kinv_drop h c
       · exact h
     generalize (if w.conns.any (fun e => e.1 == c) then w.drop c else w) = w1 at h1
-    exact kinv_connect (kinv_frame (w' := { w1 with out := w1.out.filter (fun e => e.1 != c) }) h1 rfl) _ _ _ _ _ _ _
+    exact kinv_connect (kinv_frame (w' := { w1 with out := w1.out.filter (fun e => e.1 != c), deaf := w1.deaf.filter (· != c) }) h1 rfl) _ _ _ _ _ _ _
   | packet c pkt =>
     simp only [applyOp]
     split
@@ -1180,10 +1180,12 @@ theorem kinv_step {w : World} (h : KInv w) (op : BOp) : KInv (applyOp w op) := b
   | drop c => exact kinv_closeFromClient h c
   | openConn c node =>
     simp only [applyOp]
-    apply kinv_openConn
-    split
-    · exact kinv_closeFromClient h c
-    · exact h
+    have h1 : KInv (if w.conns.any (fun e => e.1 == c) then closeFromClient w c else w) := by
+      split
+      · exact kinv_closeFromClient h c
+      · exact h
+    generalize (if w.conns.any (fun e => e.1 == c) then closeFromClient w c else w) = w1 at h1
+    exact kinv_openConn (kinv_frame (w' := { w1 with deaf := w1.deaf.filter (· != c) }) h1 rfl) c node
   | raw c b => exact kinv_rawBytes h c b
   | gossipAll => exact kinv_gossipAll h
   | gossip f t => exact kinv_deliverGossip h f t
